@@ -48,6 +48,7 @@ ARCH = {
                      keys={'ssh-ed25519': {}}, gex={'sizes': [1024, 2048, 4096], 'style': 'strict'}),
     'gex_roundup': _p(banner='SSH-2.0-libssh_0.9.6', kex=['diffie-hellman-group-exchange-sha256'], key=['rsa-sha2-256'], keys={'ssh-rsa': {'bits': 4096}},
                       gex={'sizes': [1536, 3072], 'style': 'roundup'}),
+    'rate': _p(banner='SSH-2.0-OpenSSH_9.6', kex=['curve25519-sha256', 'diffie-hellman-group14-sha256'], key=['ssh-ed25519'], keys={'ssh-ed25519': {}}),
     'ssh1': {'banner': 'SSH-1.5-OpenSSH_3.4', 'ssh2': False, 'ssh1': {'cmask': 0x4c, 'amask': 0x3c, 'hkey_bits': 1024, 'skey_bits': 768}},
     'client': _p(banner='SSH-2.0-OpenSSH_9.6', kex=['curve25519-sha256', 'ext-info-c', 'kex-strict-c-v00@openssh.com'], key=['ssh-ed25519', 'rsa-sha2-512'], pre=[]),
 }
@@ -63,7 +64,7 @@ def base_plan(arch, opts, timeout, net, faults, seed, knobs=None, keep=False):
         argv = list(opts) + ['-c', '-p', '2222'] + (['-t', str(timeout)] if timeout else ['-t', '5'])
         plan = gen.client_plan(seed, argv, prof, port=2222, net=net, knobs=knobs, faults=faults)
     else:
-        argv = list(opts) + ['--skip-rate-test'] + (['-t', str(timeout)] if timeout else []) + ['srv.example:2222']
+        argv = list(opts) + ([] if arch == 'rate' else ['--skip-rate-test']) + (['-t', str(timeout)] if timeout else []) + ['srv.example:2222']
         plan = gen.server_plan(seed, argv, prof, port=2222, net=net, knobs=knobs, faults=faults)
     plan['keep_tx'] = True
     if keep:
